@@ -21,7 +21,8 @@ TEXT = ('Rocq theorems (Props/C14.v, closed under the global context) about a fa
         'the key without its non-exportable signatures rebuilt by the attachment operators; equal to it component by component and signature list by '
         'signature list when its lists are in order; per-component exactly the exportable signatures in general; any concatenation of keys with distinct '
         'ids splits; the second round trip is the identity on packets; a copy exports identically; explicit exportable=True survives; insort is '
-        'sortedness-preserving and stable; refutation witnesses for the pre-repair code (bisect_left insort, Boolean subpacket parse, resort). '
+        'sortedness-preserving and stable; the signature packets the structural model treats as atoms keep their octets through parse / copy / export '
+        '(Model/SubArea.v: C14_signature_areas_verbatim, C14_signature_copy_same_octets); refutation witnesses for the pre-repair code (bisect_left insort, Boolean subpacket parse, resort). '
         'Tie: pinned source text of the modelled functions + extracted-model correspondence on generated packet sequences and on keys made by real '
         'key-management histories, with direct round-trip / verification oracles on the implementation.',
         'DESIGN.md 5 C14',
